@@ -127,21 +127,36 @@ func c01Check(c c01Case) error {
 		}
 	}
 	// The verdict is a function of the input alone: it is the same when the call is handed an object that has just
-	// served a ParseND call (line feeds are record separators there, and only there). Histories proper belong to C15.
+	// served a ParseND call (line feeds are record separators there, and only there) or a successful Parse (whatever
+	// verdict or state that call left behind). Histories proper belong to C15.
 	if len(c.In) <= 1<<16 {
-		prev, perr := simdjson.ParseND([]byte("[1]\n{\"a\":2}\n[3]"), nil)
-		if perr != nil {
-			return fmt.Errorf("ParseND of a three-line document failed: %v", perr)
-		}
-		in := append([]byte(nil), c.In...)
-		pj, err := simdjson.Parse(in, prev)
-		switch {
-		case err != nil && pj != nil:
-			return fmt.Errorf("[reused after ParseND] Parse returned both an error (%v) and a result", err)
-		case v == rj.MustAccept && err != nil:
-			return fmt.Errorf("[reused after ParseND] valid JSON rejected (%v): %q", err, clip(c.In))
-		case v == rj.MustReject && err == nil:
-			return fmt.Errorf("[reused after ParseND] invalid JSON accepted: %q", clip(c.In))
+		h := evidHash(c.In)
+		for variant := 0; variant < 2; variant++ {
+			if len(c.In) <= 8192 && int(h&1) != variant {
+				continue // small inputs: one of the two variants, chosen by the input itself; large ones: both
+			}
+			var prev *simdjson.ParsedJson
+			var perr error
+			what := "ParseND"
+			if variant == 0 {
+				prev, perr = simdjson.ParseND([]byte("[1]\n{\"a\":2}\n[3]"), nil)
+			} else {
+				what = "a successful Parse"
+				prev, perr = simdjson.Parse([]byte(`{"a":[1,2,{"b":null}],"c":"d\n"}`), nil)
+			}
+			if perr != nil {
+				return fmt.Errorf("%s of a valid document failed: %v", what, perr)
+			}
+			in := append([]byte(nil), c.In...)
+			pj, err := simdjson.Parse(in, prev)
+			switch {
+			case err != nil && pj != nil:
+				return fmt.Errorf("[reused after %s] Parse returned both an error (%v) and a result", what, err)
+			case v == rj.MustAccept && err != nil:
+				return fmt.Errorf("[reused after %s] valid JSON rejected (%v): %q", what, err, clip(c.In))
+			case v == rj.MustReject && err == nil:
+				return fmt.Errorf("[reused after %s] invalid JSON accepted: %q", what, clip(c.In))
+			}
 		}
 	}
 	return nil
